@@ -62,7 +62,13 @@ def building(r, integer=False, aux=False, max_steps=12):
                     q = V("const")
                     if s == "REF":
                         q = [-x for x in q]
-                    comps.append(comp("OUT", sid, srv=s, v=q))
+                    if r.random() < 0.3:
+                        # the output of one service declared on two lines
+                        a = [float(int(x / 3)) if integer else round(x / 3, 2) for x in q]
+                        comps.append(comp("OUT", sid, srv=s, v=a))
+                        comps.append(comp("OUT", sid, srv=s, v=[(x - y) if integer else round(x - y, 2) for x, y in zip(q, a)]))
+                    else:
+                        comps.append(comp("OUT", sid, srv=s, v=q))
     if r.random() < 0.7:
         comps.append(comp("USED", 0, "ELECTRICIDAD", r.choice(["ILU", "VEN"]), v=V()))
     if r.random() < 0.6:
@@ -73,14 +79,26 @@ def building(r, integer=False, aux=False, max_steps=12):
         comps.append(comp("USED", 9, fuel, "COGEN", v=[x + (1.0 if integer else 0.5) for x in V("rand")]))
         if r.random() < 0.3:
             comps.append(comp("USED", 9, "BIOMASA" if fuel != "BIOMASA" else "GASNATURAL", "COGEN", v=V("sparse")))
+        if aux and r.random() < 0.3:
+            comps.append(comp("AUX", 9, v=V("const")))       # auxiliaries of the cogenerator
     if r.random() < 0.4:
         comps.append(comp("USED", 0, "ELECTRICIDAD", "NEPB", v=V()))
     if r.random() < 0.15:
         comps.append(comp("USED", 0, r.choice(["GASNATURAL", "EAMBIENTE"]), "NEPB", v=V()))
+    def need(srv, v):
+        # a demand may be declared on several lines (they add up); the first ones may be negative or cancel out
+        if r.random() < 0.3:
+            first = [-(float(round(x / 2)) if integer else round(x / 2, 2)) for x in v] if r.random() < 0.5 else [0.0] * n
+            comps.append(comp("NEED", srv=srv, v=first))
+            comps.append(comp("NEED", srv=srv, v=[(x - y) if integer else round(x - y, 2) for x, y in zip(v, first)]))
+        else:
+            comps.append(comp("NEED", srv=srv, v=v))
     if r.random() < 0.5:
-        comps.append(comp("NEED", srv="ACS", v=V("const")))
+        need("ACS", V("const"))
     if r.random() < 0.3:
-        comps.append(comp("NEED", srv="CAL", v=V()))
+        need("CAL", V())
+    if r.random() < 0.2:
+        need("REF", [-x for x in V()])                      # cooling needs are negative
     r.shuffle(comps)
     return comps
 
